@@ -135,8 +135,12 @@ SeedAll == Seed1 \o <<A("val_new", "", "v1", "", "", 7), A("store", "c0", "v1", 
 Try(mm, as) == LET F[j \in 0..Len(as)] == IF j = 0 THEN [mm |-> mm, h |-> <<>>]
                                            ELSE IF Pre(F[j - 1].mm, as[j]) THEN [mm |-> Post(F[j - 1].mm, as[j]), h |-> Append(F[j - 1].h, as[j])] ELSE F[j - 1]
                 IN  F[Len(as)]
-AllHist == {Try(Fold(M0, SeedAll), <<A("parse_exec", "c0", "x1", "", "", q), A("run", "c0", "x1", "", "", 0), A("parse_exec", "c0", "x2", "", "", q), A("run", "c0", "x2", "", "", 0)>>) : q \in DOMAIN Prog}
-           \cup {Try(Fold(M0, SeedAll), <<A("parse_expr", "c0", "e1", "", "", q), A("eval", "c0", "p1", "e1", "", 0), A("parse_expr", "c0", "e2", "", "", q)>>) : q \in DOMAIN Expr}
+AllHist == {Try(Fold(M0, SeedAll), <<A("parse_exec", "c0", "x1", "", "", q), A("run", "c0", "x1", "", "", 0), A("parse_exec", "c0", "x2", "", "", q), A("run", "c0", "x2", "", "", 0),
+                                        \* then texts that need a context at rest: a function declaration, a program using the stored variables
+                                        A("exec_free", "", "x1", "", "", 0), A("parse_exec", "c0", "x1", "", "", 20), A("run", "c0", "x1", "", "", 0),
+                                        A("exec_free", "", "x1", "", "", 0), A("parse_exec", "c0", "x1", "", "", 1), A("run", "c0", "x1", "", "", 0)>>) : q \in DOMAIN Prog}
+           \cup {Try(Fold(M0, SeedAll), <<A("parse_expr", "c0", "e1", "", "", q), A("eval", "c0", "p1", "e1", "", 0), A("parse_expr", "c0", "e2", "", "", q),
+                                           A("parse_exec", "c0", "x1", "", "", 20), A("run", "c0", "x1", "", "", 0), A("parse_exec", "c0", "x2", "", "", 1), A("run", "c0", "x2", "", "", 0)>>) : q \in DOMAIN Expr}
 InitAll == \E r \in AllHist : hist = SeedAll \o r.h /\ m = r.mm /\ nw = 0
 Stutter == UNCHANGED vars
 EmitAll == PrintT("@@S " \o ToJson(Scenario(hist, m)))
